@@ -5,7 +5,7 @@ CONSTANT MaxLabels = 2
 CONSTANT MaxCount = 3
 CONSTANT MaxO2 = 1
 CONSTANT O2Twice = TRUE
-CONSTANT StackFlagsFull = FALSE
+CONSTANT StackFlagsFull = "few"
 INVARIANT EdgeExclusive
 INVARIANT PairMaximal
 CHECK_DEADLOCK FALSE
